@@ -4,7 +4,9 @@ from vlib import core, httpgen as G
 
 PROP = 'C01'
 MODULES = ['PistacheModel.Props.C01']
-THEOREMS = ['Pistache.Parser.Props.' + t for t in ()]
+THEOREMS = ['Pistache.Parser.Props.' + t for t in (
+    'run_merge', 'seg_independent', 'parse_final', 'observation_independent', 'waits_until_last_byte')] + \
+    ['Pistache.Parser.' + t for t in ('stable_requestLine', 'stable_responseLine', 'stable_headers', 'apps_absorb', 'parse_resume')]
 
 def cases_for(kind, msg, rnd, tier, mx=4096):
     n = len(msg)
